@@ -6,7 +6,7 @@ From Coq Require Import List NArith ZArith Bool.
 Import ListNotations.
 Require Import Verif.Lib.Wire Verif.Gen.Facts_C10 Verif.Model.C10 Verif.Proofs.C10 Verif.Proofs.C10_sat
         Verif.Proofs.C10_on Verif.Proofs.C10_codec Verif.Proofs.C10_real
-        Verif.Proofs.C10_gen Verif.Proofs.C10_gen2 Verif.Proofs.C10_altered Verif.Proofs.C10_factory Verif.Proofs.C10_compose.
+        Verif.Proofs.C10_gen Verif.Proofs.C10_gen2 Verif.Proofs.C10_altered Verif.Proofs.C10_factory Verif.Proofs.C10_compose Verif.Proofs.C10_bounds.
 
 (* constants read from session.py: the three comparisons are `>`, the limit is 4064, the payload
    is (accessed, created, state), each wrapped dict method wraps the dict method of its own name *)
@@ -470,3 +470,34 @@ Theorem C10_call_end_to_end : forall O c o, rt_b64 O -> rt_ser O -> mac_len O ->
   forall l, unforged O o l -> Forall2 ok_at (grun_chain O o None l) (spec_chain O o None true l).
 Proof. exact call_end_to_end. Qed.
 Print Assumptions C10_call_end_to_end.
+
+(* ================================================================== proof-only round 3 (Proofs/C10_bounds.v):
+   the boundary statements end to end from the factory's arguments AS GIVEN, through the router pipeline with any
+   other response callbacks (gfinish_r), to the next request (Examples ex_bounds, ex_no_timeout) *)
+Theorem C10_factory_timeout_boundary : forall O a o s exc n ck z, rt_b64 O -> rt_ser O -> mac_len O ->
+  gfactory a = FacOk o -> int_of (fa_timeout a) = FOk z ->
+  gfinish_r O o s exc n = FCookie ck ->
+  (exists s0, gen_init O o (Some ck) (tval (accessed s) + z * tick) = IOk s0 /\ st s0 = st s /\ isnew s0 = false)
+  /\ (exists s0, gen_init O o (Some ck) (tval (accessed s) + z * tick + 1) = IOk s0 /\ st s0 = [] /\ isnew s0 = false
+                 /\ tval (created s0) = tval (created s)).
+Proof. exact factory_timeout_boundary. Qed.
+Print Assumptions C10_factory_timeout_boundary.
+
+Theorem C10_factory_no_timeout_never_expires : forall O a o s exc n ck now, rt_b64 O -> rt_ser O -> mac_len O ->
+  gfactory a = FacOk o -> fa_timeout a = CNone ->
+  gfinish_r O o s exc n = FCookie ck ->
+  exists s0, gen_init O o (Some ck) now = IOk s0 /\ st s0 = st s /\ tval (created s0) = tval (created s)
+             /\ isnew s0 = false /\ dirty s0 = false /\ tval (renewed s0) = tval (accessed s).
+Proof. exact factory_no_timeout_never_expires. Qed.
+Print Assumptions C10_factory_no_timeout_never_expires.
+
+Theorem C10_factory_reissue_value : forall a o r,
+  gfactory a = FacOk o -> int_of (fa_reissue a) = FOk r -> reissue o = Some r.
+Proof. exact factory_reissue_value. Qed.
+Print Assumptions C10_factory_reissue_value.
+
+Theorem C10_factory_reissue_boundary : forall a o p t s r,
+  gfactory a = FacOk o -> int_of (fa_reissue a) = FOk r -> op_cls p (st s) = CAcc ->
+  dirty (fst (gstep o p t s)) = dirty s || Z.gtb (int_time t * tick - tval (renewed s)) (r * tick).
+Proof. exact factory_reissue_boundary. Qed.
+Print Assumptions C10_factory_reissue_boundary.
